@@ -70,6 +70,12 @@ def symbolic_return(fn, values=False, params=False):
     hoisting in between print the same); throwing guards and early `return` guards are skipped; a local written anywhere else
     (inside a loop or a branch) makes the result unknown ('?')"""
     import astu
+    if values and not astu._VALUES[0]:
+        astu._VALUES[0] = True
+        try:
+            return symbolic_return(fn, values=True, params=params)
+        finally:
+            astu._VALUES[0] = False
     env = {}
     dirty = set()
     if params:
